@@ -70,7 +70,7 @@ def shards(tier):
 
 def required_counters(tier):
     return {
-        "calls.well_typed": 1000, "classes.constructions": 30, "joint_typechecker.calls": 5,
+        "calls.well_typed": 1000, "classes.constructions": 30, "joint_typechecker.calls": 5, "coroutine_protocol.scripts": 10, "how_called.calls": 12, "factory.calls": 18,
         "calls.ill_typed": 300,
         "calls.non_binding": 300,
         "kind.def": 300,
@@ -657,11 +657,182 @@ def arm_joint_typechecker(rec):
             rec.violation("joint-constraint", {"input": iname}, f"typechecker with a cross-parameter constraint: violated call {iname} gave {got}, body ran {len(LOG)}x (expected TypeCheckError, body not run)", mechanism="joint-typechecker-violated-" + got + ("-body-ran" if LOG else ""))
 
 
+def arm_coroutine_protocol(rec):
+    """a decorated coroutine function driven the way an event loop drives it - send, throw (cancellation, timeout)
+    into a suspended body that survives it, send again, close: the same sequence of results and exceptions as the
+    plain coroutine function"""
+    import beartype
+    import typeguard
+
+    from jaxtyping import Float, jaxtyped
+
+    class Cancelled(BaseException):
+        pass
+
+    SRC = (
+        "async def co(x: Float[N, 'a'], n: int):\n"
+        "    LOG.append('start')\n"
+        "    try:\n"
+        "        r = await Suspend('first')\n"
+        "        LOG.append(('got', r))\n"
+        "    except Cancelled:\n"
+        "        LOG.append('cancelled-once')\n"
+        "    try:\n"
+        "        r2 = await Suspend('second')\n"
+        "        LOG.append(('got2', r2))\n"
+        "    finally:\n"
+        "        await Suspend('cleanup')\n"
+        "        LOG.append('cleaned')\n"
+        "    return ('done', n)\n"
+    )
+
+    class Suspend:
+        def __init__(self, tag):
+            self.tag = tag
+
+        def __await__(self):
+            got = yield self.tag
+            return got
+
+    scripts = {
+        "plain-sends": [("send", None), ("send", 1), ("send", 2), ("send", 3)],
+        "throw-then-continue": [("send", None), ("throw", Cancelled), ("send", 5), ("send", 6)],
+        "throw-twice": [("send", None), ("throw", Cancelled), ("throw", Cancelled), ("send", 7), ("send", 8)],
+        "throw-other-then-close": [("send", None), ("throw", KeyError), ("send", 1)],
+        "close-while-suspended": [("send", None), ("send", 1), ("close", None)],
+    }
+
+    def drive(fn, script, LOG):
+        del LOG[:]
+        out = []
+        try:
+            c = fn(real.np_array((2,)), 3)
+        except BaseException as e:  # noqa
+            return [("call-raised", type(e).__name__)], list(LOG)
+        for what, arg in script:
+            try:
+                if what == "send":
+                    out.append(("yielded", c.send(arg)))
+                elif what == "throw":
+                    out.append(("yielded", c.throw(arg())))
+                else:
+                    out.append(("closed", c.close()))
+            except StopIteration as e:
+                out.append(("returned", e.value))
+                break
+            except BaseException as e:  # noqa
+                out.append(("raised", type(e).__name__))
+                break
+        try:
+            c.close()
+        except BaseException as e:  # noqa
+            out.append(("close-raised", type(e).__name__))
+        return out, list(LOG)
+
+    for cname, tc in (("typeguard", typeguard.typechecked), ("beartype", beartype.beartype)):
+        LOG = []
+        ns = {"Float": Float, "N": np.ndarray, "Suspend": Suspend, "Cancelled": Cancelled, "LOG": LOG}
+        real.exec_src(SRC, ns)
+        plain = ns["co"]
+        deco = jaxtyped(typechecker=tc)(plain)
+        for sname, script in scripts.items():
+            a = drive(plain, script, LOG)
+            b = drive(deco, script, LOG)
+            rec.count("coroutine_protocol.scripts")
+            rec.case(("coroutine", cname, sname), True)
+            if a != b:
+                rec.violation("coroutine-protocol", {"checker": cname, "script": sname}, f"decorated coroutine function driven with {sname}: plain {a}, decorated {b}", mechanism="coroutine-" + sname + "-differs")
+
+
+def arm_how_it_was_called(rec):
+    """jaxtyped applied on top of a functools.wraps-style wrapper that can see HOW it was called (jax.jit, a
+    deprecation shim testing `name in kwargs`, an lru_cache): positional stays positional, keyword stays keyword,
+    an omitted default stays omitted"""
+    import functools
+
+    import beartype
+    import typeguard
+
+    from jaxtyping import Float, jaxtyped
+
+    for cname, tc in (("typeguard", typeguard.typechecked), ("beartype", beartype.beartype)):
+        SEEN = []
+        ns = {"Float": Float, "N": np.ndarray}
+        real.exec_src("def f(x: Float[N, 'a'], y: int = 2, *rest: int, k: int = 5, **opts: int):\n    return (y, rest, k, tuple(sorted(opts)))\n", ns)
+        f = ns["f"]
+
+        @functools.wraps(f)
+        def observer(*args, **kwargs):
+            SEEN.append((len(args), tuple(sorted(kwargs))))
+            return f(*args, **kwargs)
+
+        deco = jaxtyped(typechecker=tc)(observer)
+        x = real.np_array((2,))
+        calls = {
+            "positional-only-x": lambda g: g(x),
+            "y-by-keyword": lambda g: g(x, y=3),
+            "x-by-keyword": lambda g: g(x=x),
+            "k-given": lambda g: g(x, 1, k=9),
+            "rest-and-opts": lambda g: g(x, 1, 7, 8, z=1),
+            "all-keywords": lambda g: g(y=1, x=x, k=2, w=3),
+        }
+        for name, c in calls.items():
+            del SEEN[:]
+            r1 = c(observer)
+            s1 = list(SEEN)
+            del SEEN[:]
+            try:
+                r2 = c(deco)
+            except Exception as e:  # noqa
+                r2 = type(e).__name__
+            s2 = list(SEEN)
+            rec.count("how_called.calls")
+            rec.case(("how-called", cname, name), True)
+            if r1 != r2 or s1 != s2:
+                rec.violation("how-called", {"checker": cname, "call": name}, f"wrapper that records how it was called, call {name}: plain saw {s1} -> {r1}, decorated saw {s2} -> {r2}", mechanism="wrapped-callee-sees-other-call-shape")
+
+
+def arm_factories(rec):
+    """one `def` executed several times (a factory) gives sibling functions with their own defaults: `{param}`
+    axes of each sibling are evaluated against ITS defaults"""
+    import beartype
+    import typeguard
+
+    from jaxtyping import Float, jaxtyped
+
+    for cname, tc in (("typeguard", typeguard.typechecked), ("beartype", beartype.beartype)):
+        # (the annotation is a module-level alias, as annotations usually are: the siblings share the very same object)
+        ns = {"Float": Float, "N": np.ndarray, "jaxtyped": jaxtyped, "tc": tc, "X": Float[np.ndarray, "{d}"]}
+        real.exec_src("def make(k):\n    @jaxtyped(typechecker=tc)\n    def head(x: X, d=k, *, scale: 'int' = k):\n        return d\n    return head\n", ns)
+        heads = {k: ns["make"](k) for k in (4, 8, 2)}
+        for k, h in heads.items():
+            for size in (2, 4, 8):
+                try:
+                    h(real.np_array((size,)))
+                    got = "ok"
+                except Exception as e:  # noqa
+                    got = type(e).__name__
+                rec.count("factory.calls")
+                rec.case(("factory", cname, k, size), True)
+                want = "ok" if size == k else "TypeCheckError"
+                if got != want:
+                    rec.violation("factory-defaults", {"checker": cname, "default": k, "size": size}, f"sibling made by make({k}) called with an array of size {size} (siblings with defaults 4, 8, 2 exist): {got}, expected {want}", mechanism="sibling-function-uses-other-siblings-defaults")
+            try:
+                r = h(real.np_array((3,)), 3)
+            except Exception as e:  # noqa
+                r = type(e).__name__
+            if r != 3:
+                rec.violation("factory-defaults", {"checker": cname, "default": k, "explicit": 3}, f"sibling made by make({k}) called with d=3 explicitly: {r}", mechanism="sibling-function-explicit-argument")
+
+
 def run_shard(rec, seed, shard, tier):
     warnings.filterwarnings("ignore")
     if shard["i"] % 8 == 0:
         arm_classes(rec)
         arm_joint_typechecker(rec)
+        arm_coroutine_protocol(rec)
+        arm_how_it_was_called(rec)
+        arm_factories(rec)
     for k in range(CASES[tier]):
         key = f"{seed}/C07/{shard['i']}/{k}"
         run_case(rec, random.Random(key), rngkey=key)
